@@ -406,25 +406,42 @@ class SmallSet {
 
   template <class I = const_iterator>
   iterator erase(const_iterator pos, typename std::enable_if<std::is_same<I, const T *>::value>::type * = 0) {
-    return isSmall() ? _vec.erase(pos) : _set.erase(pos);
+    if (isSmall()) {
+      return _vec.erase(pos);
+    }
+    iterator ret = _set.erase(pos);
+    // erasing the last element switches back to the small state, whose end() is another iterator
+    return _set.empty() ? end() : ret;
   }
 
   template <class I = const_iterator>
   iterator erase(const_iterator pos, typename std::enable_if<!std::is_same<I, const T *>::value>::type * = 0) {
-    return isSmall() ? iterator(_vec.erase(pos.toVecIt())) : iterator(_set.erase(pos.toSetIt()));
+    if (isSmall()) {
+      return iterator(_vec.erase(pos.toVecIt()));
+    }
+    iterator ret(_set.erase(pos.toSetIt()));
+    // erasing the last element switches back to the small state, whose end() is another iterator
+    return _set.empty() ? end() : ret;
   }
 
   template <class I = const_iterator>
   iterator erase(const_iterator first, const_iterator last,
                  typename std::enable_if<std::is_same<I, const T *>::value>::type * = 0) {
-    return isSmall() ? _vec.erase(first, last) : _set.erase(first, last);
+    if (isSmall()) {
+      return _vec.erase(first, last);
+    }
+    iterator ret = _set.erase(first, last);
+    return _set.empty() ? end() : ret;
   }
 
   template <class I = const_iterator>
   iterator erase(const_iterator first, const_iterator last,
                  typename std::enable_if<!std::is_same<I, const T *>::value>::type * = 0) {
-    return isSmall() ? iterator(_vec.erase(first.toVecIt(), last.toVecIt()))
-                     : iterator(_set.erase(first.toSetIt(), last.toSetIt()));
+    if (isSmall()) {
+      return iterator(_vec.erase(first.toVecIt(), last.toVecIt()));
+    }
+    iterator ret(_set.erase(first.toSetIt(), last.toSetIt()));
+    return _set.empty() ? end() : ret;
   }
 
   void swap(SmallSet &o) noexcept(noexcept(std::declval<VecType>().swap(std::declval<VecType &>())) &&noexcept(
